@@ -59,9 +59,9 @@ package loadbalancer
 //@   decreases len(rr.backends) - rangeindex
 
 //@ func (*RoundRobinStrategy).GetBackends
-//@   props C11
+//@   props C11 C02
 //@   requires unlocked(rr.mutex)
-//@   ensures copy: len(result) == len(rr.backends) && (forall i int :: {result[i]} 0 <= i && i < len(result) ==> result[i] == rr.backends[i])
+//@   ensures copy: len(result) == len(rr.backends) && (forall i int :: {result[i]} {rr.backends[i]} 0 <= i && i < len(result) ==> result[i] == rr.backends[i])
 //@   ensures fresh_copy: len(result) > 0 ==> fresh(result.base)
 
 // ---- least connections
@@ -72,7 +72,7 @@ package loadbalancer
 //@   ensures empty: len(lc.backends) == 0 ==> result == nil
 //@   ensures member: result != nil ==> exists i int :: 0 <= i && i < len(lc.backends) && lc.backends[i] == result
 //@   ensures minimal: result != nil ==> forall i int :: {lc.backends[i]} 0 <= i && i < len(lc.backends) ==> conns(result) <= conns(lc.backends[i])
-//@   ensures picks_one: result == nil && len(lc.backends) > 0 ==> forall i int :: {lc.backends[i]} 0 <= i && i < len(lc.backends) ==> conns(lc.backends[i]) == 2147483647
+//@   ensures picks_one: result == nil && len(lc.backends) > 0 ==> forall i int :: {lc.backends[i]} 0 <= i && i < len(lc.backends) ==> conns(lc.backends[i]) >= 2147483647
 //@ loop (*LeastConnectionsStrategy).NextBackend #0
 //@   props C02 C05
 //@   invariant idx: -1 <= rangeindex && rangeindex < len(lc.backends)
@@ -80,3 +80,306 @@ package loadbalancer
 //@   invariant attained: selectedBackend != nil ==> conns(selectedBackend) == minConnections && (exists k int :: 0 <= k && k <= rangeindex && lc.backends[k] == selectedBackend)
 //@   invariant none_yet: selectedBackend == nil ==> minConnections == 2147483647
 //@   decreases len(lc.backends) - rangeindex
+
+// ---------------------------------------------------------------------------------------------------
+// Balancer: health state machine, selection, accounting.
+
+//@ pred lbOK(lb *LoadBalancer) := lb.metricsCollector != nil && lb.metricsCollector.metrics != nil
+//@      && lb.metricsCollector.metrics.BackendMetrics != nil && lb.healthChecks != nil && lb.config != nil && lb.strategy != nil && ptr(lb.strategy) != 0
+//@ pred mirrorOf(lb *LoadBalancer, b *Backend) bool := lb.metricsCollector.metrics.BackendMetrics[b.Name].IsHealthy
+
+// Backend.Mutex guards the health flag and the window end. Under every interleaving the flag may go from
+// false to true only when the window that was current at that moment has elapsed.
+//@ monitor Backend.Mutex b
+//@   guards IsHealthy, UnhealthyUntil
+//@   guarantee no_early_readmission: !old(b.IsHealthy) && b.IsHealthy ==> now() > old(b.UnhealthyUntil)
+
+//@ func (*LoadBalancer).MarkBackendUnhealthy
+//@   props C04
+//@   mode seq, mon
+//@   requires backend != nil && unlocked(backend.Mutex) && lbOK(lb)
+//@   requires unlocked(lb.metricsCollector.metrics.mutex) && bmCellsOK(lb.metricsCollector)
+//@   ensures seq: ejected: !backend.IsHealthy && backend.UnhealthyUntil == now() + duration
+//@   ensures mirror: has_bm(lb.metricsCollector, backend.Name) && !mirrorOf(lb, backend)
+//@   ensures cells: bmCellsOK(lb.metricsCollector)
+//@   modifies backend.IsHealthy, backend.UnhealthyUntil, mapof(lb.metricsCollector.metrics.BackendMetrics), metrics.BackendMetrics.IsHealthy, metrics.BackendMetrics.LastHealthCheck
+
+//@ func (*LoadBalancer).IsBackendHealthy
+//@   props C02 C04
+//@   mode seq, mon
+//@   requires backend != nil && unlocked(backend.Mutex) && lbOK(lb)
+//@   requires unlocked(lb.metricsCollector.metrics.mutex) && bmCellsOK(lb.metricsCollector)
+//@   ensures seq: only_eligible: result ==> backend.IsHealthy && (old(backend.IsHealthy) || now() > old(backend.UnhealthyUntil))
+//@   ensures seq: refused_in_window: !result ==> inWindow(backend, now()) && !old(backend.IsHealthy) && backend.UnhealthyUntil == old(backend.UnhealthyUntil)
+//@   ensures seq: expiry_readmits: !old(backend.IsHealthy) && old(now()) > old(backend.UnhealthyUntil) ==> result
+//@   ensures seq: mirror: backend.IsHealthy != old(backend.IsHealthy) ==> has_bm(lb.metricsCollector, backend.Name) && mirrorOf(lb, backend) == backend.IsHealthy
+//@   ensures cells: bmCellsOK(lb.metricsCollector)
+//@   ensures clock: now() >= old(now())
+//@   modifies backend.IsHealthy, mapof(lb.metricsCollector.metrics.BackendMetrics), metrics.BackendMetrics.IsHealthy, metrics.BackendMetrics.LastHealthCheck
+
+// ---- probes
+//@ func (*LoadBalancer).processHealthCheckResponse
+//@   props C04
+//@   mode seq, mon
+//@   requires backend != nil && resp != nil && unlocked(backend.Mutex) && lbOK(lb)
+//@   requires unlocked(lb.metricsCollector.metrics.mutex) && bmCellsOK(lb.metricsCollector)
+//@   ensures seq: failed_probe_ejects: resp.StatusCode != 200 ==> !backend.IsHealthy && backend.UnhealthyUntil == now() + lb.healthChecks.passiveTimeout
+//@   ensures seq: ok_probe_never_ejects: resp.StatusCode == 200 ==> backend.IsHealthy
+//@   ensures seq: mirror: has_bm(lb.metricsCollector, backend.Name) && mirrorOf(lb, backend) == backend.IsHealthy
+//@   ensures cells: bmCellsOK(lb.metricsCollector)
+//@   modifies backend.IsHealthy, backend.UnhealthyUntil, mapof(lb.metricsCollector.metrics.BackendMetrics), metrics.BackendMetrics.IsHealthy, metrics.BackendMetrics.LastHealthCheck
+
+//@ func (*LoadBalancer).handleHealthCheckFailure
+//@   props C04
+//@   requires backend != nil && unlocked(backend.Mutex) && lbOK(lb)
+//@   requires unlocked(lb.metricsCollector.metrics.mutex) && bmCellsOK(lb.metricsCollector)
+//@   ensures unreachable_ejects: !backend.IsHealthy && backend.UnhealthyUntil == now() + lb.healthChecks.passiveTimeout
+//@   ensures mirror: has_bm(lb.metricsCollector, backend.Name) && !mirrorOf(lb, backend)
+//@   ensures cells: bmCellsOK(lb.metricsCollector)
+//@   modifies backend.IsHealthy, backend.UnhealthyUntil, mapof(lb.metricsCollector.metrics.BackendMetrics), metrics.BackendMetrics.IsHealthy, metrics.BackendMetrics.LastHealthCheck
+
+// ---- passive ejection: the counter of failed responses per backend name
+//@ pred failCount(lb *LoadBalancer, name string) int := has(lb.healthChecks.unhealthyBackends, name) ? lb.healthChecks.unhealthyBackends[name] : 0
+
+//@ func (*LoadBalancer).handlePassiveHealthCheck
+//@   props C04
+//@   requires backend != nil && r != nil && unlocked(backend.Mutex) && lbOK(lb) && unlocked(lb.healthChecks.unhealthyBackendMu)
+//@   requires lb.healthChecks.unhealthyBackends != nil && lb.healthChecks.passiveThreshold >= 1
+//@   requires unlocked(lb.metricsCollector.metrics.mutex) && bmCellsOK(lb.metricsCollector)
+//@   requires failCount(lb, backend.Name) >= 0 && failCount(lb, backend.Name) < lb.healthChecks.passiveThreshold
+//@   ensures only_after_threshold: old(failCount(lb, backend.Name)) + 1 < lb.healthChecks.passiveThreshold ==>
+//@             backend.IsHealthy == old(backend.IsHealthy) && backend.UnhealthyUntil == old(backend.UnhealthyUntil)
+//@             && failCount(lb, backend.Name) == old(failCount(lb, backend.Name)) + 1
+//@   ensures at_threshold_ejects: old(failCount(lb, backend.Name)) + 1 >= lb.healthChecks.passiveThreshold ==>
+//@             !backend.IsHealthy && backend.UnhealthyUntil == now() + lb.healthChecks.passiveTimeout && failCount(lb, backend.Name) == 0
+//@             && has_bm(lb.metricsCollector, backend.Name) && !mirrorOf(lb, backend)
+//@   ensures counter_range: failCount(lb, backend.Name) >= 0 && failCount(lb, backend.Name) < lb.healthChecks.passiveThreshold
+//@   ensures cells: bmCellsOK(lb.metricsCollector)
+//@   modifies backend.IsHealthy, backend.UnhealthyUntil, mapof(lb.healthChecks.unhealthyBackends), mapof(lb.metricsCollector.metrics.BackendMetrics), metrics.BackendMetrics.IsHealthy, metrics.BackendMetrics.LastHealthCheck
+
+// ---- selection
+// This thread holds none of the strategy locks (every strategy method takes its own lock).
+//@ pred noStrategyLocks() := (forall s *RoundRobinStrategy :: {s.mutex} unlocked(s.mutex)) && (forall s *LeastConnectionsStrategy :: {s.mutex} unlocked(s.mutex))
+//@      && (forall s *WeightedRoundRobinStrategy :: {s.mutex} unlocked(s.mutex)) && (forall s *IPHashStrategy :: {s.mutex} unlocked(s.mutex))
+//@      && (forall s *IPHashConsistentStrategy :: {s.mutex} unlocked(s.mutex))
+//@ pred noBackendLocks() := forall b *Backend :: {b.Mutex} unlocked(b.Mutex)
+
+//@ func (*LoadBalancer).NextBackend
+//@   props C02
+//@   requires unlocked(lb.mutex) && lb.strategy != nil && ptr(lb.strategy) != 0 && noStrategyLocks() && r != nil
+//@   requires poolOK(lb)
+//@   ensures member: result != nil ==> inPool(lb, result)
+//@   modifies RoundRobinStrategy.current, weightedBackend.currentWeight
+
+// ---- pool views of the five strategies
+//@ pred inRR(s *RoundRobinStrategy, b *Backend) := exists i int :: {s.backends[i]} 0 <= i && i < len(s.backends) && s.backends[i] == b
+//@ pred inLC(s *LeastConnectionsStrategy, b *Backend) := exists i int :: {s.backends[i]} 0 <= i && i < len(s.backends) && s.backends[i] == b
+//@ pred inWRR(s *WeightedRoundRobinStrategy, b *Backend) := exists i int :: {s.backends[i]} 0 <= i && i < len(s.backends) && s.backends[i].backend == b
+//@ pred inIPH(s *IPHashStrategy, b *Backend) := exists i int :: {s.backends[i]} 0 <= i && i < len(s.backends) && s.backends[i] == b
+//@ pred inIPHC(s *IPHashConsistentStrategy, b *Backend) := exists i int :: {s.backends[i]} 0 <= i && i < len(s.backends) && s.backends[i] == b
+//@ pred inPool(lb *LoadBalancer, b *Backend) :=
+//@        (dyntype(lb.strategy, *RoundRobinStrategy) && inRR(asptr(lb.strategy, *RoundRobinStrategy), b))
+//@     || (dyntype(lb.strategy, *LeastConnectionsStrategy) && inLC(asptr(lb.strategy, *LeastConnectionsStrategy), b))
+//@     || (dyntype(lb.strategy, *WeightedRoundRobinStrategy) && inWRR(asptr(lb.strategy, *WeightedRoundRobinStrategy), b))
+//@     || (dyntype(lb.strategy, *IPHashStrategy) && inIPH(asptr(lb.strategy, *IPHashStrategy), b))
+//@     || (dyntype(lb.strategy, *IPHashConsistentStrategy) && inIPHC(asptr(lb.strategy, *IPHashConsistentStrategy), b))
+//@ pred lcOK(s *LeastConnectionsStrategy) := forall i int :: {s.backends[i]} 0 <= i && i < len(s.backends) ==> s.backends[i] != nil
+//@ pred iphOK(s *IPHashStrategy) := len(s.backends) < 2147483648 && (forall i int :: {s.backends[i]} 0 <= i && i < len(s.backends) ==> s.backends[i] != nil)
+//@ pred iphcOK(s *IPHashConsistentStrategy) := len(s.backends) < 2147483648 && (forall i int :: {s.backends[i]} 0 <= i && i < len(s.backends) ==> s.backends[i] != nil)
+//@ pred wrrOK(s *WeightedRoundRobinStrategy) := forall i int :: {s.backends[i]} 0 <= i && i < len(s.backends) ==> s.backends[i] != nil && s.backends[i].backend != nil
+//@ pred poolOK(lb *LoadBalancer) :=
+//@        (dyntype(lb.strategy, *RoundRobinStrategy) ==> rrNonNil(asptr(lb.strategy, *RoundRobinStrategy))) &&
+//@        (dyntype(lb.strategy, *LeastConnectionsStrategy) ==> lcOK(asptr(lb.strategy, *LeastConnectionsStrategy)))
+//@     && (dyntype(lb.strategy, *WeightedRoundRobinStrategy) ==> wrrOK(asptr(lb.strategy, *WeightedRoundRobinStrategy)))
+//@     && (dyntype(lb.strategy, *IPHashStrategy) ==> iphOK(asptr(lb.strategy, *IPHashStrategy)))
+//@     && (dyntype(lb.strategy, *IPHashConsistentStrategy) ==> iphcOK(asptr(lb.strategy, *IPHashConsistentStrategy)))
+
+// ---- ip hash
+//@ func (*IPHashStrategy).NextBackend
+//@   props C02 C06
+//@   requires unlocked(iph.mutex) && r != nil && iphOK(iph)
+//@   ensures member: result != nil ==> inIPH(iph, result) && result.IsHealthy
+//@   ensures nil_only_if_none_flagged: result == nil ==> forall i int :: {iph.backends[i]} 0 <= i && i < len(iph.backends) ==> !iph.backends[i].IsHealthy
+//@ loop (*IPHashStrategy).NextBackend #0
+//@   props C02 C06
+//@   invariant idx: -1 <= rangeindex && rangeindex < len(iph.backends)
+//@   invariant pool_kept: iph.backends == old(iph.backends) && (forall i int :: {iph.backends[i]} 0 <= i && i < len(iph.backends) ==> iph.backends[i] == old(iph.backends[i]))
+//@   invariant separate: healthyBackends.base != iph.backends.base && healthyBackends.base != 0 && allocated(healthyBackends.base) && !preexisting(healthyBackends.base)
+//@   invariant sound: forall k int :: {healthyBackends[k]} 0 <= k && k < len(healthyBackends) ==> healthyBackends[k] != nil && healthyBackends[k].IsHealthy && inIPH(iph, healthyBackends[k])
+//@   invariant complete: forall j int :: {iph.backends[j]} 0 <= j && j <= rangeindex && iph.backends[j].IsHealthy ==> len(healthyBackends) > 0
+//@   invariant small: len(healthyBackends) <= rangeindex + 1
+//@   invariant others_kept: forall x int :: {backing(x, []*Backend)} preexisting(x) ==> backing(x, []*Backend) == old(backing(x, []*Backend))
+//@   decreases len(iph.backends) - rangeindex
+
+// ---- ip hash, consistent
+//@ func (*IPHashConsistentStrategy).NextBackend
+//@   props C02 C06
+//@   requires unlocked(iph.mutex) && r != nil && iphcOK(iph)
+//@   ensures member: result != nil ==> inIPHC(iph, result) && result.IsHealthy
+//@   ensures nil_only_if_none_flagged: result == nil ==> forall i int :: {iph.backends[i]} 0 <= i && i < len(iph.backends) ==> !iph.backends[i].IsHealthy
+//@ loop (*IPHashConsistentStrategy).NextBackend #0
+//@   props C02 C06
+//@   invariant idx: -1 <= rangeindex && rangeindex < len(iph.backends)
+//@   invariant pool_kept: iph.backends == old(iph.backends) && (forall i int :: {iph.backends[i]} 0 <= i && i < len(iph.backends) ==> iph.backends[i] == old(iph.backends[i]))
+//@   invariant separate: healthyBackends.base != iph.backends.base && healthyBackends.base != 0 && allocated(healthyBackends.base) && !preexisting(healthyBackends.base)
+//@   invariant sound: forall k int :: {healthyBackends[k]} 0 <= k && k < len(healthyBackends) ==> healthyBackends[k] != nil && healthyBackends[k].IsHealthy && inIPHC(iph, healthyBackends[k])
+//@   invariant complete: forall j int :: {iph.backends[j]} 0 <= j && j <= rangeindex && iph.backends[j].IsHealthy ==> len(healthyBackends) > 0
+//@   invariant small: len(healthyBackends) <= rangeindex + 1
+//@   invariant others_kept: forall x int :: {backing(x, []*Backend)} preexisting(x) ==> backing(x, []*Backend) == old(backing(x, []*Backend))
+//@   decreases len(iph.backends) - rangeindex
+
+// ---- add/remove/list for the other slice-of-backend strategies (same shape as round robin)
+//@ pred distinct_LeastConnectionsStrategy(s *LeastConnectionsStrategy) := forall i int :: forall j int :: 0 <= i && i < j && j < len(s.backends) ==> s.backends[i] != s.backends[j]
+//@ func (*LeastConnectionsStrategy).AddBackend
+//@   props C11
+//@   requires unlocked(lc.mutex)
+//@   ensures appended: len(lc.backends) == old(len(lc.backends)) + 1 && lc.backends[old(len(lc.backends))] == backend
+//@   ensures kept: forall i int :: {lc.backends[i]} 0 <= i && i < old(len(lc.backends)) ==> lc.backends[i] == old(lc.backends[i])
+//@   modifies lc.backends, elems(lc.backends)
+
+//@ func (*LeastConnectionsStrategy).RemoveBackend
+//@   props C11
+//@   requires unlocked(lc.mutex) && distinct_LeastConnectionsStrategy(lc)
+//@   ensures absent_unchanged: (forall i int :: 0 <= i && i < old(len(lc.backends)) ==> old(lc.backends[i]) != backend)
+//@             ==> len(lc.backends) == old(len(lc.backends)) && (forall i int :: {lc.backends[i]} 0 <= i && i < len(lc.backends) ==> lc.backends[i] == old(lc.backends[i]))
+//@   ensures removed: (exists i int :: 0 <= i && i < old(len(lc.backends)) && old(lc.backends[i]) == backend)
+//@             ==> len(lc.backends) == old(len(lc.backends)) - 1 && (forall i int :: {lc.backends[i]} 0 <= i && i < len(lc.backends) ==> lc.backends[i] != backend)
+//@   ensures others_kept: forall j int :: {old(lc.backends[j])} 0 <= j && j < old(len(lc.backends)) && old(lc.backends[j]) != backend
+//@             ==> exists i int :: 0 <= i && i < len(lc.backends) && lc.backends[i] == old(lc.backends[j])
+//@   ensures nothing_new: forall i int :: {lc.backends[i]} 0 <= i && i < len(lc.backends) ==> exists j int :: 0 <= j && j < old(len(lc.backends)) && lc.backends[i] == old(lc.backends[j])
+//@   modifies lc.backends, elems(lc.backends)
+//@ loop (*LeastConnectionsStrategy).RemoveBackend #0
+//@   props C11
+//@   invariant idx: -1 <= rangeindex && rangeindex < len(lc.backends)
+//@   invariant notfound: forall k int :: {lc.backends[k]} 0 <= k && k <= rangeindex ==> lc.backends[k] != backend
+//@   decreases len(lc.backends) - rangeindex
+
+//@ func (*LeastConnectionsStrategy).GetBackends
+//@   props C11 C02
+//@   requires unlocked(lc.mutex)
+//@   ensures copy: len(result) == len(lc.backends) && (forall i int :: {result[i]} {lc.backends[i]} 0 <= i && i < len(result) ==> result[i] == lc.backends[i])
+//@   ensures fresh_copy: len(result) > 0 ==> fresh(result.base)
+
+
+//@ pred distinct_IPHashStrategy(s *IPHashStrategy) := forall i int :: forall j int :: 0 <= i && i < j && j < len(s.backends) ==> s.backends[i] != s.backends[j]
+//@ func (*IPHashStrategy).AddBackend
+//@   props C11
+//@   requires unlocked(iph.mutex)
+//@   ensures appended: len(iph.backends) == old(len(iph.backends)) + 1 && iph.backends[old(len(iph.backends))] == backend
+//@   ensures kept: forall i int :: {iph.backends[i]} 0 <= i && i < old(len(iph.backends)) ==> iph.backends[i] == old(iph.backends[i])
+//@   modifies iph.backends, elems(iph.backends)
+
+//@ func (*IPHashStrategy).RemoveBackend
+//@   props C11
+//@   requires unlocked(iph.mutex) && distinct_IPHashStrategy(iph)
+//@   ensures absent_unchanged: (forall i int :: 0 <= i && i < old(len(iph.backends)) ==> old(iph.backends[i]) != backend)
+//@             ==> len(iph.backends) == old(len(iph.backends)) && (forall i int :: {iph.backends[i]} 0 <= i && i < len(iph.backends) ==> iph.backends[i] == old(iph.backends[i]))
+//@   ensures removed: (exists i int :: 0 <= i && i < old(len(iph.backends)) && old(iph.backends[i]) == backend)
+//@             ==> len(iph.backends) == old(len(iph.backends)) - 1 && (forall i int :: {iph.backends[i]} 0 <= i && i < len(iph.backends) ==> iph.backends[i] != backend)
+//@   ensures others_kept: forall j int :: {old(iph.backends[j])} 0 <= j && j < old(len(iph.backends)) && old(iph.backends[j]) != backend
+//@             ==> exists i int :: 0 <= i && i < len(iph.backends) && iph.backends[i] == old(iph.backends[j])
+//@   ensures nothing_new: forall i int :: {iph.backends[i]} 0 <= i && i < len(iph.backends) ==> exists j int :: 0 <= j && j < old(len(iph.backends)) && iph.backends[i] == old(iph.backends[j])
+//@   modifies iph.backends, elems(iph.backends)
+//@ loop (*IPHashStrategy).RemoveBackend #0
+//@   props C11
+//@   invariant idx: -1 <= rangeindex && rangeindex < len(iph.backends)
+//@   invariant notfound: forall k int :: {iph.backends[k]} 0 <= k && k <= rangeindex ==> iph.backends[k] != backend
+//@   decreases len(iph.backends) - rangeindex
+
+//@ func (*IPHashStrategy).GetBackends
+//@   props C11 C02
+//@   requires unlocked(iph.mutex)
+//@   ensures copy: len(result) == len(iph.backends) && (forall i int :: {result[i]} {iph.backends[i]} 0 <= i && i < len(result) ==> result[i] == iph.backends[i])
+//@   ensures fresh_copy: len(result) > 0 ==> fresh(result.base)
+
+
+//@ pred distinct_IPHashConsistentStrategy(s *IPHashConsistentStrategy) := forall i int :: forall j int :: 0 <= i && i < j && j < len(s.backends) ==> s.backends[i] != s.backends[j]
+//@ func (*IPHashConsistentStrategy).AddBackend
+//@   props C11
+//@   requires unlocked(iph.mutex)
+//@   ensures appended: len(iph.backends) == old(len(iph.backends)) + 1 && iph.backends[old(len(iph.backends))] == backend
+//@   ensures kept: forall i int :: {iph.backends[i]} 0 <= i && i < old(len(iph.backends)) ==> iph.backends[i] == old(iph.backends[i])
+//@   modifies iph.backends, elems(iph.backends)
+
+//@ func (*IPHashConsistentStrategy).RemoveBackend
+//@   props C11
+//@   requires unlocked(iph.mutex) && distinct_IPHashConsistentStrategy(iph)
+//@   ensures absent_unchanged: (forall i int :: 0 <= i && i < old(len(iph.backends)) ==> old(iph.backends[i]) != backend)
+//@             ==> len(iph.backends) == old(len(iph.backends)) && (forall i int :: {iph.backends[i]} 0 <= i && i < len(iph.backends) ==> iph.backends[i] == old(iph.backends[i]))
+//@   ensures removed: (exists i int :: 0 <= i && i < old(len(iph.backends)) && old(iph.backends[i]) == backend)
+//@             ==> len(iph.backends) == old(len(iph.backends)) - 1 && (forall i int :: {iph.backends[i]} 0 <= i && i < len(iph.backends) ==> iph.backends[i] != backend)
+//@   ensures others_kept: forall j int :: {old(iph.backends[j])} 0 <= j && j < old(len(iph.backends)) && old(iph.backends[j]) != backend
+//@             ==> exists i int :: 0 <= i && i < len(iph.backends) && iph.backends[i] == old(iph.backends[j])
+//@   ensures nothing_new: forall i int :: {iph.backends[i]} 0 <= i && i < len(iph.backends) ==> exists j int :: 0 <= j && j < old(len(iph.backends)) && iph.backends[i] == old(iph.backends[j])
+//@   modifies iph.backends, elems(iph.backends)
+//@ loop (*IPHashConsistentStrategy).RemoveBackend #0
+//@   props C11
+//@   invariant idx: -1 <= rangeindex && rangeindex < len(iph.backends)
+//@   invariant notfound: forall k int :: {iph.backends[k]} 0 <= k && k <= rangeindex ==> iph.backends[k] != backend
+//@   decreases len(iph.backends) - rangeindex
+
+//@ func (*IPHashConsistentStrategy).GetBackends
+//@   props C11 C02
+//@   requires unlocked(iph.mutex)
+//@   ensures copy: len(result) == len(iph.backends) && (forall i int :: {result[i]} {iph.backends[i]} 0 <= i && i < len(result) ==> result[i] == iph.backends[i])
+//@   ensures fresh_copy: len(result) > 0 ==> fresh(result.base)
+
+
+
+// ---- weighted round robin
+//@ func (*WeightedRoundRobinStrategy).NextBackend
+//@   props C02 C05
+//@   requires unlocked(wrr.mutex) && wrrOK(wrr)
+//@   ensures member: result != nil ==> inWRR(wrr, result) && result.IsHealthy
+//@   ensures nil_only_if_none_flagged: result == nil ==> forall i int :: {wrr.backends[i]} 0 <= i && i < len(wrr.backends) ==> !wrr.backends[i].backend.IsHealthy
+//@   modifies weightedBackend.currentWeight
+//@ loop (*WeightedRoundRobinStrategy).NextBackend #0
+//@   props C02 C05
+//@   invariant idx: -1 <= rangeindex && rangeindex < len(wrr.backends)
+//@   invariant best_ok: best != nil ==> best.backend != nil && best.backend.IsHealthy && (exists k int :: {wrr.backends[k]} 0 <= k && k <= rangeindex && wrr.backends[k] == best)
+//@   invariant none_yet: best == nil ==> forall k int :: {wrr.backends[k]} 0 <= k && k <= rangeindex ==> !wrr.backends[k].backend.IsHealthy
+//@   decreases len(wrr.backends) - rangeindex
+
+// ---- request path
+// What a request goroutine may assume when it enters the balancer: it holds no lock.
+//@ pred idle(lb *LoadBalancer) := unlocked(lb.mutex) && noStrategyLocks() && noBackendLocks() && unlocked(lb.metricsCollector.metrics.mutex)
+//@      && unlocked(lb.healthChecks.unhealthyBackendMu)
+//@ pred poolNonNil(lb *LoadBalancer) := forall b *Backend :: inPool(lb, b) ==> b != nil
+
+//@ func (*LoadBalancer).findHealthyBackend
+//@   props C02 C04
+//@   requires lbOK(lb) && idle(lb) && poolOK(lb) && r != nil && bmCellsOK(lb.metricsCollector)
+//@   ensures only_eligible: result != nil ==> result.IsHealthy && inPool(lb, result)
+//@   ensures none_only_if_all_ejected: result == nil ==> forall b *Backend :: inPool(lb, b) ==> !b.IsHealthy && entry_now() <= b.UnhealthyUntil
+//@   ensures cells: bmCellsOK(lb.metricsCollector)
+//@   modifies Backend.IsHealthy, RoundRobinStrategy.current, weightedBackend.currentWeight, mapof(lb.metricsCollector.metrics.BackendMetrics), metrics.BackendMetrics.IsHealthy, metrics.BackendMetrics.LastHealthCheck
+//@ loop (*LoadBalancer).findHealthyBackend #0
+//@   props C02 C04
+//@   invariant tries: 0 <= i && i <= 3
+//@   invariant cells: bmCellsOK(lb.metricsCollector)
+//@   invariant ok: lbOK(lb) && idle(lb) && poolOK(lb)
+//@   decreases 3 - i
+//@   modifies Backend.IsHealthy, RoundRobinStrategy.current, weightedBackend.currentWeight, mapof(lb.metricsCollector.metrics.BackendMetrics), metrics.BackendMetrics.IsHealthy, metrics.BackendMetrics.LastHealthCheck
+
+//@ loop (*LoadBalancer).findHealthyBackend #1
+//@   props C02 C04
+//@   invariant idx: -1 <= rangeindex && rangeindex < len(backends)
+//@   invariant cells: bmCellsOK(lb.metricsCollector)
+//@   invariant ok: lbOK(lb) && idle(lb) && poolOK(lb)
+//@   invariant examined_in_window: forall k int :: {backends[k]} 0 <= k && k <= rangeindex ==> !backends[k].IsHealthy && entry_now() <= backends[k].UnhealthyUntil
+//@   invariant snapshot_kept: forall x int :: {backing(x, []*Backend)} backing(x, []*Backend) == old(backing(x, []*Backend))
+//@   decreases len(backends) - rangeindex
+//@   modifies Backend.IsHealthy, mapof(lb.metricsCollector.metrics.BackendMetrics), metrics.BackendMetrics.IsHealthy, metrics.BackendMetrics.LastHealthCheck
+
+//@ func (*WeightedRoundRobinStrategy).GetBackends
+//@   props C11 C02
+//@   requires unlocked(wrr.mutex) && wrrOK(wrr)
+//@   ensures copy: len(result) == len(wrr.backends) && (forall i int :: {result[i]} {wrr.backends[i]} 0 <= i && i < len(result) ==> result[i] == wrr.backends[i].backend)
+//@   ensures fresh_copy: len(result) > 0 ==> fresh(result.base)
+//@ loop (*WeightedRoundRobinStrategy).GetBackends #0
+//@   props C11 C02
+//@   invariant idx: -1 <= rangeindex && rangeindex < len(wrr.backends)
+//@   invariant copied: forall k int :: {backends[k]} 0 <= k && k <= rangeindex ==> backends[k] == wrr.backends[k].backend
+//@   invariant kept: forall x int :: {backing(x, []*weightedBackend)} backing(x, []*weightedBackend) == old(backing(x, []*weightedBackend))
+//@   invariant others_kept: forall x int :: {backing(x, []*Backend)} preexisting(x) ==> backing(x, []*Backend) == old(backing(x, []*Backend))
+//@   decreases len(wrr.backends) - rangeindex
